@@ -72,12 +72,12 @@ func subjKind(s string) string {
 func C03(o *core.Options) int {
 	r := core.NewReport(o, "exploration",
 		"for every world (model family representatives x tuple subsets of size<=2) and request: the raw weighted-graph CheckQueryV2 under EVERY planner strategy assignment and breadth limit {1,10}, the default engine (CheckQuery) on the same store, and Server.Check with the weighted_graph_check flag; oracle: object subjects: every v2 decision is acceptable to the reference (terminal v2 errors only where the reference fails); userset/wildcard subjects: v2 decision != v1 decision implies the breaking-change detector reports it (v2=false, userset subject, CheckReason non-empty); v2 errors are documented request-shape errors or non-terminal (fallback); the flag-on server answers like v2 when v2 decides and like v1 when it falls back; non-trivial = requests where v2 returned a decision and the reference value is T or E, or where v2 and v1 disagree")
-	r.Assume("memory datastore; model family and universe as in C01 (every 3rd r0-signature class in quick)",
+	r.Assume("memory datastore; model family and universe as in C01 (every 8th r0-signature class in quick)",
 		"models the weighted graph cannot build are counted and must fall back")
 	all := e2.ValidModels(ref.Family(ref.FamilyOpts{Conds: true}))
 	reps := ref.Representatives(all, 1, o.Seed)
 	var models []*ref.Model
-	stride := 3
+	stride := 8
 	if o.Thorough() {
 		stride = 1
 	}
@@ -206,6 +206,9 @@ func C03(o *core.Options) int {
 								if v2breaking.CheckExclusionReason(pm.ts, tk) != "" {
 									excl = "/exclusion-shape"
 								}
+								if v.V == "F" && recursiveThroughUsersetAndTTU(w.M, ref.TypeOf(n.Obj), n.Rel) {
+									excl += "/relation-recursive-through-userset-and-ttu"
+								}
 								sigs = append(sigs, fmt.Sprintf("unreported-divergence/v2=%s-v1=%s/%s-subject%s", v.V, d1.V, kind, excl))
 							} else {
 								r.Count("reported_divergences", 1)
@@ -220,8 +223,23 @@ func C03(o *core.Options) int {
 					} else {
 						r.Count("v2_not_decided_requests", 1)
 					}
-					if !allowedSrv[srv.V] && e2.Verdict(srv.V, strong, weak) != "" {
-						sigs = append(sigs, "flag-on-server-answer-matches-neither-v2-nor-fallback")
+					if vd := e2.Verdict(srv.V, strong, weak); !allowedSrv[srv.V] && vd != "" {
+						// the flag-on server gave an answer none of the enumerated raw runs gave (the engine's
+						// first-arrival rule makes error-vs-false timing dependent): classify it like a raw answer
+						uneval := false
+						for _, t := range w.Tuples {
+							if w.Valid(t) && ref.CondVal(t, rc) == ref.E {
+								uneval = true
+							}
+						}
+						switch {
+						case srv.V == "ERR" && e2.UnevaluableUnreached(w, n.Obj, n.Rel, rc):
+							sigs = append(sigs, "V4-spurious-failure/unevaluable-condition-on-unreached-tuple/v2-terminal-error")
+						case srv.V == "ERR" && uneval:
+							sigs = append(sigs, "V4-spurious-failure/v2-fails-on-unevaluable-condition-although-decided")
+						default:
+							sigs = append(sigs, "flag-on-server-answer-matches-neither-v2-nor-fallback/"+vd)
+						}
 					}
 					if len(sigs) > 0 {
 						sort.Strings(sigs)
